@@ -3,6 +3,7 @@
 //
 //	hx-c14 lock  --n N --len L   lockstep histories: every observation after every call goes to cases.v
 //	hx-c14 sched --n N           forced schedules on DerivedVariable2..4: writers held at callback boundaries (sched.go)
+//	hx-c14 reent --n N           re-entrant callbacks: scripted calls back into the object from inside its callbacks (reent.go)
 //	hx-c14 conc  --runs R        free-running writers (<= 4 goroutines) + quiescence barrier, judged in Go against
 //	                             the defining function; directed schedules for D14b / D14c; all under watchdogs
 package main
@@ -116,6 +117,7 @@ func main() {
 	seed := fs.Uint64("seed", 1, "")
 	out := fs.String("out", "cases.v", "")
 	stats := fs.String("stats", "stats.json", "")
+	probe := fs.Bool("probe", false, "reent: print which (callback site, scripted call) pairs complete")
 	_ = fs.Parse(os.Args[2:])
 	r := vx.NewRng(*seed)
 	switch os.Args[1] {
@@ -178,6 +180,24 @@ func main() {
 		}
 		schedAll(r, st, cf, *n)
 		if err := cf.Write(*out); err != nil {
+			vx.Die("%v", err)
+		}
+		if err := st.Write(*stats); err != nil {
+			vx.Die("%v", err)
+		}
+	case "reent":
+		if *probe {
+			reentProbe(r, *n)
+			return
+		}
+		st := vx.NewStats("re-entrant callbacks, single goroutine: one callback (EvictionState event handlers with tree-shaped scripts; DerivedVariable compute functions / subscribers of the derived, the inheriting and the input variables; subscribers of a DerivedSet, a SubtractReactive result and their sources; Counter conditions / subscribers; SortedSet Heaviest/Lightest/set/weight subscribers; WaitGroup OnTrigger handlers and pending-set subscribers) runs a script of calls back into the scenario's objects during a short history of top-level calls; judged: the goroutine never parks on a lock (wait state) / 20 s watchdog, what the scripted reads return, the defining function after every call; the demanded (site, call) pairs are those that complete on the unchanged code; distinct = distinct scenario; non-trivial = the script ran (EvictionState: at least two handler actions ran)")
+		g := &gen{r: r, st: st, cf: &vx.CasesFile{
+			Header: "From Coq Require Import ZArith NArith List Bool.\nFrom Verif.C14_Derived Require Import Model ModelEVR Corr.\nImport ListNotations.\n",
+			Type:   "case",
+			Footer: "Definition M := Eval vm_compute in mismatches cases.\nPrint M.\n",
+		}}
+		reentAll(g, *n)
+		if err := g.cf.Write(*out); err != nil {
 			vx.Die("%v", err)
 		}
 		if err := st.Write(*stats); err != nil {
